@@ -115,6 +115,22 @@ def gen_rounds(seed, tier, run):
             rts.append((len(out), pos))
             out.append(f"insert {arr(sh)} {lst(pos)} {arr([len(pos)], base=5000)} n")
         out.append(f"repeat {arr(sh)} l3 n")
+    # rank 4 / 5 with middle axes and unequal trailing extents (seeded change C13h: the lane axis moved back with an
+    # exchange instead of the inverse move shows only for 1 <= axis <= rank - 3)
+    for sh in ([2, 3, 2, 2], [2, 2, 3, 2], [3, 2, 2, 3], [2, 3, 4, 2], [2, 2, 2, 3, 2], [1, 3, 2, 4]):
+        for ax in range(len(sh)):
+            ln = sh[ax]
+            for k in range(0, ln + 1):
+                for sub in itertools.combinations(range(ln), k):
+                    if rng.random() < 0.6:
+                        sub = list(sub); rng.shuffle(sub)
+                        out.append(f"delete {arr(sh)} {lst(sub)} z{ax}")
+            out.append(f"delete {arr(sh)} {lst([ln - 1, 0, ln - 1])} z{ax}")
+            for _ in range(3):
+                out.append(f"repeat {arr(sh)} {lst([rng.randint(0, 3) for _ in range(ln)])} z{ax}")
+            out.append(f"repeat {arr(sh)} l2 z{ax}")
+            other = list(sh); other[ax] = rng.choice([1, 2, 5])
+            out.append(f"append {arr(sh)} {arr(other, base=500)} z{ax}")
     for L in (9, 17, 33, 64, 100):
         for _ in range(6):
             v = [rng.choice([0, 0, 1, 2]) for _ in range(L)]
